@@ -288,3 +288,28 @@ Theorem flag_extension_unknown : forall c rest,
 Proof.
   intros. unfold classify. repeat split; apply classify_extension_unknown; vm_compute; reflexivity.
 Qed.
+
+(* ---------- names that only look like known tags ---------- *)
+(* a value tag's name WITHOUT its colon (e.g. a bare `#EXT-X-KEY`) is an unknown tag: checked for every prefix entry of the
+   regenerated dispatch chain *)
+Definition name_without_colon_unknown : bool :=
+  forallb (fun e : bool * str * kind =>
+             let '(exact, p, _) := e in
+             if exact then true
+             else match rev p with
+                  | 58 :: r => match classify (rev r) with K_Unknown => true | _ => false end
+                  | _ => false                      (* every prefix-matched tag name ends in a colon *)
+                  end) dispatch_table.
+Lemma bare_names_unknown : name_without_colon_unknown = true.
+Proof. vm_compute. reflexivity. Qed.
+(* a value tag's name with a longer name (an extra letter before the colon) is an unknown tag *)
+Definition longer_name_unknown : bool :=
+  forallb (fun e : bool * str * kind =>
+             let '(exact, p, _) := e in
+             if exact then true
+             else match rev p with
+                  | 58 :: r => match classify (rev r ++ [83; 58; 49]) with K_Unknown => true | _ => false end    (* NAME + "S:1" *)
+                  | _ => false
+                  end) dispatch_table.
+Lemma longer_names_unknown : longer_name_unknown = true.
+Proof. vm_compute. reflexivity. Qed.
